@@ -1,7 +1,7 @@
 ID = "C17"
 
 PROP = {
-    "coq_targets": ["Extract/ExC17.vo"],
+    "coq_targets": ["Properties/C17.vo", "Extract/ExC17.vo"],
     "driver": {"model": "c17_model.ml", "src": "drv_c17.ml", "exe": "c17_driver"},
     "bin": "c17",
     "profiles": ["dev"],
